@@ -6,14 +6,14 @@ namespace Pydap.Das
     top-level variable -/
 def dsDict (ds : Dataset) : Dict := sortKeys ds.attrs ++ varsEntries ds.children
 
-/-- structural guards on a dataset (beyond `VarsG`): no global attribute named like a top-level variable or like
-    the dataset itself (finding class C08.attr_named_like_child), ids are built from dot-free names, no
+/-- structural guards on a dataset (beyond `VarsG`): no global attribute named like a top-level variable, no
+    dict-valued global attribute named like the dataset itself (finding class C08.attr_named_like_child), ids are built from dot-free names, no
     top-level variable is called `NC_GLOBAL` / `DODS_EXTRA` -/
 structure DsG (ds : Dataset) : Prop where
   vars : VarsG ds.children
   nodup : (keys ds.attrs ++ ds.children.map Var.name).Nodup
   nodot : NoDot (keys ds.attrs ++ ds.children.map Var.name)
-  selfname : ds.name ∉ keys ds.attrs
+  selfname : ∀ e, dget ds.attrs ds.name ≠ some (.dict e)
   noglobal : ∀ v ∈ ds.children, v.name ∉ globalNames
 
 def notGlobal (kv : Text × AVal) : Bool := !isGlobalDict kv
@@ -72,11 +72,40 @@ theorem nodup_filter_sort_append (a : Dict) (p : Text × AVal → Bool) (xs : Li
     List.Sublist.append ((List.filter_sublist).map _) (List.Sublist.refl xs)
   exact hs.nodup h1
 
-/-- **`add_attributes` on the parsed DAS of a whole dataset** -/
-theorem attach_tree (ds : Dataset) (hg : DsG ds) :
-    addAttributes ds.name ds.children (dsDict ds) = .ok
-      ⟨dupdate (mergeGlobals (sortKeys ds.attrs) []) ((sortKeys ds.attrs).filter notGlobal),
-       expectVars ds.children⟩ := by
+/-- the dataset node itself (visited last): no container carries its name — at most a plain global attribute, which
+    stays a global attribute (the repaired `add_attributes`) -/
+theorem self_step (R g : Dict) (name : Text) (h : ∀ e, dget R name ≠ some (.dict e)) :
+    attachStep R [name] g = .ok (R, g) := by
+  cases hv : dget R name with
+  | none => simp [attachStep, nestedStep, dotted, hv, reduceGet]
+  | some v =>
+    cases v with
+    | dict e => exact absurd hv (h e)
+    | sc y => simp [attachStep, nestedStep, dotted, hv, reduceGet]
+    | list y => simp [attachStep, nestedStep, dotted, hv, reduceGet]
+
+/-- `add_attributes` is the first component of `addAttributesRem` -/
+theorem addAttributes_eq_rem (name : Text) (cs : List Var) (A : Dict) :
+    addAttributes name cs A = (addAttributesRem name cs A).map (·.1) := by
+  unfold addAttributes addAttributesRem
+  simp only
+  generalize attachAll (A.filter fun kv => !isGlobalDict kv) (walkVars [] cs).reverse = r
+  cases r with
+  | error e => rfl
+  | ok r =>
+    obtain ⟨a1, vars⟩ := r
+    simp only
+    generalize attachStep a1 [name] (mergeGlobals A []) = r2
+    cases r2 with
+    | error e => rfl
+    | ok r2 => rfl
+
+/-- **`add_attributes` on the parsed DAS of a whole dataset**, with what it leaves in the caller's dict: the plain
+    global attributes only — every container has been popped -/
+theorem attach_tree_rem (ds : Dataset) (hg : DsG ds) :
+    addAttributesRem ds.name ds.children (dsDict ds) = .ok
+      (⟨dupdate (mergeGlobals (sortKeys ds.attrs) []) ((sortKeys ds.attrs).filter notGlobal),
+       expectVars ds.children⟩, (sortKeys ds.attrs).filter notGlobal) := by
   have hm : mergeGlobals (dsDict ds) [] = mergeGlobals (sortKeys ds.attrs) [] := by
     unfold dsDict
     rw [mergeGlobals_append, mergeGlobals_entries _ hg.noglobal]
@@ -94,12 +123,23 @@ theorem attach_tree (ds : Dataset) (hg : DsG ds) :
     rcases hk with hk | hk
     · exact hg.nodot k (by simp [mem_keys_filter_sort _ _ _ hk])
     · exact hg.nodot k (by simp only [List.mem_append]; right; exact hk)
-  have hself : ds.name ∉ keys ((sortKeys ds.attrs).filter notGlobal) :=
-    fun h => hg.selfname (mem_keys_filter_sort _ _ _ h)
+  have hnda : (keys ds.attrs).Nodup := (List.nodup_append.mp hg.nodup).1
+  have hndR : (keys ((sortKeys ds.attrs).filter notGlobal)).Nodup := (List.nodup_append.mp hnd).1
+  have hself : ∀ e, dget ((sortKeys ds.attrs).filter notGlobal) ds.name ≠ some (.dict e) := by
+    intro e he
+    have h1 := (dget_eq_some_iff _ hndR _ _).mp he
+    have h2 := (mem_sortKeys _ ds.attrs).mp (List.mem_filter.mp h1).1
+    exact hg.selfname e ((dget_eq_some_iff _ hnda _ _).mpr h2)
   have hwalk := top_vars ds.children _ hg.vars hnd hdot
-  have hmiss := dget_none_of_not_mem _ _ hself
-  unfold addAttributes
+  unfold addAttributesRem
   simp only [hm, hf, hwalk]
-  simp [attachStep, nestedStep, dotted, hmiss, reduceGet]
+  rw [self_step _ _ _ hself]
+
+/-- **`add_attributes` on the parsed DAS of a whole dataset** -/
+theorem attach_tree (ds : Dataset) (hg : DsG ds) :
+    addAttributes ds.name ds.children (dsDict ds) = .ok
+      ⟨dupdate (mergeGlobals (sortKeys ds.attrs) []) ((sortKeys ds.attrs).filter notGlobal),
+       expectVars ds.children⟩ := by
+  rw [addAttributes_eq_rem, attach_tree_rem ds hg]; rfl
 
 end Pydap.Das
